@@ -30,14 +30,23 @@ ASSUMPTIONS = ["continue_with_distance is only issued after an early stop (its d
 
 
 def gen_case(rng, i, tier):
+    if i % 60 == 13:
+        case = mcase.gen_large_mcase(rng)
+        case["ops"] = gen.gen_history(rng, len(case["trace"]), case["cfg"]["width"], allow_cwd=True, max_ops=3)
+        case["debug"] = False
+        return case
     case = mcase.gen_mcase(rng, width="maybe", tighten_p=0.3, sparse_p=0.35, max_obs=9)
     n = len(case["trace"])
     case["ops"] = gen.gen_history(rng, n, case["cfg"]["width"], allow_cwd=True, max_ops=5)
     case["debug"] = rng.random() < 0.25
+    if not case.get("large") and not case["map"].get("latlon"):
+        gen.add_pre_trace(rng, case)
     return case
 
 
 def check_case(ctx, case):
+    if case.get("large"):
+        ctx.count("large_map_cases")
     mp = build.make_inmem(case["map"])
     mt = build.make_matcher(mp, case["cfg"])
     tr = build.trace(case["trace"])
